@@ -3,7 +3,7 @@
 Iterable interface for the GraphQL Language lexer.
 """
 
-from string import ascii_letters, digits as ascii_digits
+from string import ascii_letters, digits as ascii_digits, hexdigits
 from typing import Container, Iterator, List, Mapping, Optional, Union
 
 from .._string_utils import ensure_unicode, parse_block_string
@@ -233,7 +233,7 @@ class Lexer:
 
             self._position += 1
 
-            if not char.isalnum():
+            if char not in hexdigits:
                 break
 
         escape = self._source[start : self._position]
